@@ -31,12 +31,12 @@ static void one(const std::string &s)
 int main()
 {
     hx_init();
-    static const char *parts[] = {"", "0", "a", "0a", "0A", "ff", "  ", " ", "\t", "\n", "g", "0b1c", "Ab", "3", "\r\n", ":"};
+    static const std::string parts[] = {"", "0", "a", "0a", "0A", "ff", "  ", " ", "\t", "\n", "g", "0b1c", "Ab", "3", "\r\n", ":", std::string("\0", 1), std::string("\0" "7", 2)};   /* a std::string may hold NUL characters */
     int np = sizeof parts / sizeof parts[0];
     for (int a = 0; a < np; a++) for (int b = 0; b < np; b++) for (int c = 0; c < np; c++) for (int d = 0; d < np; d++)
-        one(std::string(parts[a]) + parts[b] + parts[c] + parts[d]);
+        one(parts[a] + parts[b] + parts[c] + parts[d]);
     { std::string big; for (int i = 0; i < 300; i++) { char t[4]; snprintf(t, sizeof t, "%02x", (i * 7) & 0xff); big += t; if (i % 16 == 15) big += "\n"; } one(big.substr(0, 60)); }
-    hx_sample("C++ helpers: all concatenations of 4 parts from a 16-part alphabet (digits, both cases, whitespace, invalid) in the %s configuration",
+    hx_sample("C++ helpers: all concatenations of 4 parts from an 18-part alphabet (digits, both cases, whitespace, invalid, NUL characters) in the %s configuration",
 #if defined(ASCON_NO_STL)
               "ASCON_NO_STL"
 #else
